@@ -332,3 +332,6 @@ def run(db, ctx):
     from . import C01
     common.shared_rule(db, ctx, C01.r13, 'R8.6', 'every score_rows_into wrapper resizes the output to (rows.len(), L + 1 - M) and returns early only when L < M or no row is asked for '
                        '(shared with R1.3)', ['R1.3'])
+    # the 8-bit score of the dispatching pipeline is the saturating kernel's only if the dispatcher has the arm (seed C08-9)
+    common.shared_rule(db, ctx, C01.r15, 'R8.7', 'dispatcher arms: the arm for backend V calls V\'s implementation, and every backend the dispatcher can select has its arm for the '
+                       'operations it implements (shared with R1.5)', ['R1.5'])
